@@ -5,6 +5,8 @@ driver), edges carry their edge class.  Never calls a pytato mapper."""
 from __future__ import annotations
 
 from dataclasses import dataclass
+
+import numpy as np
 from typing import Any
 
 from . import reflect
@@ -133,6 +135,12 @@ def attr_key(n, ignore=()):
 
     from pytato.array import DataWrapper, DictOfNamedArrays
     from pytato.function import FunctionDefinition
+    if isinstance(n, DataWrapper) and "@dw-by-buffer" in ignore and isinstance(n.data, np.ndarray):
+        # the view of deduplicate_data_wrappers: two wrappers denote the same input iff they wrap the same
+        # memory with the same layout
+        d = n.data
+        return ("DataWrapper", d.__array_interface__["data"][0], d.shape, d.strides, str(d.dtype),
+                _tok(n.shape), _param_tags(n.tags), _tok(n.axes))
     if isinstance(n, DataWrapper):
         return ("DataWrapper", id(n))            # data wrappers are equal only when identical
     # tag INSTANCES (tags may carry parameters, e.g. FunctionIdentifier) belong to the fingerprint;
